@@ -2655,3 +2655,72 @@ def f_explicit_seeds(case):
     sim = mksim([kv, cache, sharded, cl, topk, quant, res, cms] + shards + list(sinks.values()), 2 * n + 100, sources=[src])
     return Scenario(sim, workload=6 * n, extra=lambda: {"log": cl.log, "topk": [(x.item, x.count) for x in topk.top()],
                                                          "reservoir": sorted(res.sketch.sample()), "sizes": shards and sharded.get_shard_sizes()})
+
+
+def _spell(kind, i):
+    """One numeric value in three equal-but-differently-typed spellings (1 == 1.0 == True, 0 == 0.0 == False)."""
+    if kind == 0:
+        return int(i)
+    if kind == 1:
+        return float(i)
+    return bool(i) if i in (0, 1) else (-0.0 if i == 0 else float(i))
+
+
+@family("sketch_tuple_keys", "strkeys", "spelling")
+def f_sketch_tuple_keys(case):
+    """Frequency sketches keyed by (region, tier) tuples and bare numbers whose numeric part is spelled as int, float or
+    bool depending on k[0] (trait ``spelling``: C03 runs the same family with the next spelling as junk before the
+    batch in one interpreter): equal-but-differently-typed keys of an *earlier* simulation must not influence this one."""
+    from happysimulator import sketching as sk
+    from happysimulator.components.sketching import SketchCollector, TopKCollector
+    k = K(case)
+    kind = k[0] % 3
+    seed = xseed(case, k[1])
+    regions = ["eu", "us", "ap"]
+    item = lambda e: e.context["item"]  # noqa: E731
+    cms = SketchCollector("cms", sk.CountMinSketch(width=4 + k[2] % 6, depth=2 + k[3] % 2, seed=seed), value_extractor=item)
+    cms_num = SketchCollector("cms_num", sk.CountMinSketch(width=3 + k[2] % 4, depth=2, seed=seed), value_extractor=lambda e: e.context["num"])
+    topk = TopKCollector("topk", k=3, value_extractor=item, seed=seed)
+    rnd = rng_of(case, 95)
+
+    def fan(self, e):
+        tier = rnd.randrange(5)
+        ctx = {"item": (rnd.choice(regions), _spell(kind, tier)), "num": _spell(kind, rnd.randrange(8))}
+        return [Event(time=self.now, event_type="Item", target=c, context=ctx) for c in (cms, cms_num, topk)]
+    f = Proc("fanout", fan)
+    n = 90
+    sim = mksim([cms, cms_num, topk, f], n + 50, sources=[const_source("items", f, 1, n, case["seed"], etype="Go")])
+    probes = [(r, _spell(kind, t)) for r in regions for t in range(5)]
+    return Scenario(sim, workload=3 * n, variant="",
+                    extra=lambda: {"cms": [cms.sketch.estimate(p) for p in probes],
+                                   "num": [cms_num.sketch.estimate(_spell(kind, i)) for i in range(8)],
+                                   "topk": [(repr(x.item), x.count) for x in topk.top()]})
+
+
+@family("any_of_race", "strkeys")
+def f_any_of_race(case):
+    """Clients that race a reply against a deadline (and sometimes a cancel signal) with ``any_of`` *after* having been
+    busy: by the time the race is set up two or more of its futures are already resolved, and the reported winner must
+    be a function of the model (argument order), not of where the allocator placed the futures."""
+    k = K(case)
+    rnd = rng_of(case, 96)
+    done = Collector("outcomes")
+    backend = Replier("backend", lambda e: ticks(1 + rnd.randrange(3)))
+
+    def client(self, e):
+        nf = 2 + (self.events_received + k[0]) % 3
+        reply = SimFuture()
+        extra = [SimFuture() for _ in range(nf - 1)]                  # deadline, cancel signal, ...
+        side = [Event(time=self.now, event_type="Call", target=backend, context={"reply_future": reply})]
+        for j, f in enumerate(extra):
+            side.append(Event.once(self.now + ticks(1 + (k[1] + j) % 3), "Deadline", lambda ev_, f=f, j=j: f.resolve(f"deadline{j}")))
+        yield ticks(4 + k[2] % 3), side                               # busy longer than the reply and every deadline
+        order = [reply] + extra if (self.events_received + k[3]) % 2 else extra + [reply]
+        idx, val = yield any_of(*order)
+        self.log.append((idx, str(val)))
+        return [Event(time=self.now, event_type=f"Won{idx}", target=done, context={})]
+    clients = [Proc(f"client{i}", client) for i in range(3)]
+    n = 40
+    srcs = [const_source(f"s{i}", c, 5 + i, 5 * n, case["seed"] + i, etype="Go") for i, c in enumerate(clients)]
+    sim = mksim(clients + [backend, done], 5 * n + 60, sources=srcs)
+    return Scenario(sim, workload=3 * n, extra=lambda: {"logs": [c.log for c in clients]})
